@@ -40,6 +40,8 @@ STRENGTHENED = {
     "C01-stale-inflater-output": "`sess multi`",
     "C07-reclaim-blocking-lock": "`faults stall-readloop` + fact `readLoopNeverWaitsForWriteLock`",
     "C14-broadcaster-close-twice": "own suite: broadcaster closed twice, the released frames re-used at once",
+    "C12-response-header-cached-once": "`nego hsseq` (ONE upgrader serves several clients whose offers differ; every handshake must be negotiated on its own) + fact `extensionHeadersFromThisHandshake`",
+    "C13-maxint-limit-overflow-empty-message": "read suite: the largest configurable limits (MaxInt64, MaxInt64-1, around 2^31, 2^40) with plain, fragmented and compressed messages; C13's relevance now counts a delivered message whose content differs",
     "C15-failfast-bypasses-queue": "taskq suite: tasks submitted through WriteAsync/WritevAsync (`w`, `v`) among gated tasks, before and after the connection ended; fact `asyncApisOnlySubmit`",
     "C18-zero-copy-masks-caller-slice": "own write-apis: caller payloads are compared DURING every transport write the call causes (observer in the in-memory transport), larger sizes and the binary opcode",
     "C09-setdeadline-takes-write-lock": "`faults deadline-stall <role> late`: a watchdog goroutine sets the write deadline AFTER the writer has stalled (the in-memory transport now wakes a stalled write when its deadline changes); verdict: the deadline call must return, then the usual teardown",
